@@ -372,6 +372,10 @@ def _sign_convention(res, index):
     for cname, mname, kind, pol in readers:
         cls = index.cls(cname)
         f = index.effective_prop(cls, mname).getter if kind == "getter" else cls.methods.get(mname)
+        if f is None and kind == "method":
+            # (a private helper may have become a function of some module of the package)
+            cands_ = [m_.functions[mname] for m_ in index.modules.values() if mname in m_.functions]
+            f = cands_[0] if len(cands_) == 1 else None
         if f is None:
             raise AnalysisError(f"anchor vanished: {cname}.{mname}")
         k = f"{cname}.{mname}:reader"
